@@ -47,6 +47,13 @@ def grid(rnd, quick):
                     out.append(dict(id="lc-%d" % k, role="acceptor", cause=c1, phase=phase, inIn=0, inOut=rnd.choice([0, 1]),
                                     buf=rnd.choice([0, 1, 10]), slowCb=False, partial=False, cause2=c2, gapMs=5, errDelayMs=rnd.choice([30, 60])))
                     k += 1
+    # the application turns the client away inside the new-client callback (before the handler runs), the peer gone already or not
+    for cause in ("handler_stop", "local_close"):
+        for c2 in ("peer_close", "peer_reset", ""):
+            for gap in ((10,) if quick else (0, 10, 40)):
+                out.append(dict(id="lc-%d" % k, role="acceptor", cause=cause, phase="callback", inIn=0, inOut=0, buf=rnd.choice([0, 10]), slowCb=False,
+                                partial=False, cause2=c2, gapMs=gap, errDelayMs=0))
+                k += 1
     # the earliest point of a connection's life: the acceptor is closed while a connection is being accepted
     for gap in ((0, 2, -1) if quick else (0, 1, 2, 5, 20, -1, -3)):
         for buf in ((10,) if quick else (0, 10)):
